@@ -317,6 +317,8 @@ def _rest_after_r2(ctx, core, cg, G_holder=None):
                         doc="the value a bound name refers to is never modified in place: heap cells are only appended; the one in-place write (naming a lambda) happens only while the name is unset, so a later binding cannot change what an earlier name does")
 
     fresh_child_scopes(ctx, "C03.R3", core, cg)
+    from rules import c04 as c04_
+    c04_.parameters_last(ctx, "C03.R3", core)
 
 
 def fresh_child_scopes(ctx, rid, core, cg, doc=None):
